@@ -926,6 +926,13 @@ class SharesManager(BaseManager):
 
     def is_item_locked(self, item: SharedItem, username: str) -> bool:
         """Checks if the shared item is locked for the given ``username``"""
+        # Items that were moved to another shared directory (adding / removing
+        # a nested shared directory) keep referring to the directory they were
+        # scanned in: the lock is decided by the directory holding the item
+        for shared_directory in self._shared_directories:
+            if item in shared_directory.items:
+                return self.is_directory_locked(shared_directory, username)
+
         return self.is_directory_locked(item.shared_directory, username)
 
     async def report_shares(self):
